@@ -324,8 +324,8 @@ func ruleC12(c *Ctx) {
 		for _, s := range StoresTo(fn, "Replica", "info") {
 			v := R.V(s.(*ssa.Store).Val)
 			key := FnName(fn) + " | r.info = " + v
-			if v == "var(info)" {
-				c.Guard(rule, fn, []ssa.Instruction{s}, "publish r.info", nil, atom("volume.meta committed first", "+"+fRep+`encodeToFile($0,&var(info),"volume.meta") -nil ==0`))
+			if v == "var(replica.Info)" {
+				c.Guard(rule, fn, []ssa.Instruction{s}, "publish r.info", nil, atom("volume.meta committed first", "+"+fRep+`encodeToFile($0,&var(replica.Info),"volume.meta") -nil ==0`))
 			} else {
 				c.Bad(rule, key, c.P.InstrPos(s), "r.info replaced by an unexpected value", nil)
 			}
@@ -610,9 +610,16 @@ func ruleC12Publish(c *Ctx) {
 				continue
 			}
 			ws := Query{Fn: fn, StartHeld: true, Kill: isMut, IsSite: func(in ssa.Instruction) bool { return in == ssa.Instruction(r) }}.Run()
-			what := R.V(r.Results[ei])
-			if i := strings.Index(what, "("); i > 0 {
-				what = what[:i]
+			// name the failing step by its callee and constant string arguments (stable under renames)
+			what := "error"
+			if cl, ok := strip(r.Results[ei]).(*ssa.Call); ok {
+				what = CalleeName(cl) + "("
+				for _, a := range cl.Call.Args {
+					if cst, ok := strip(a).(*ssa.Const); ok && cst.Value != nil && strings.HasPrefix(constString(cst), `"`) {
+						what += strings.Trim(constString(cst), `"`)
+					}
+				}
+				what += ")"
 			}
 			key := name + " | error return after in-memory publication | " + what
 			if seen[key] {
